@@ -4,6 +4,22 @@ from fractions import Fraction
 from vcheck import Case, hx, flist, ilist, parse_vals
 
 PID = "C19"
+
+
+def regenerate():
+    """T-tie: coq/Gen_C19_Formulas.v is regenerated from src/Statistics.cpp and src/Utilities.cpp on every run (tools/cxx2gallina_C19.py,
+    an extension of tools/cxx2gallina.py by vectors, element loops and push_back loops); coq/C19_GenTie.v proves the generated terms equal
+    to the hand model, so a source change breaks a proof obligation before any case is run."""
+    import os, vbuild, cxx2gallina, cxx2gallina_C19
+    inc = os.path.join(vbuild.BUILD, "c19_inc"); os.makedirs(inc, exist_ok=True)
+    vh = os.path.join(inc, "version.hpp")
+    if not os.path.exists(vh): vbuild._version_hpp(vh)
+    try:
+        txt = cxx2gallina_C19.generate(vbuild.REPO, [os.path.join(vbuild.REPO, "include"), inc])
+    except cxx2gallina.Unsupported as e:
+        raise RuntimeError(f"tools/cxx2gallina_C19.py cannot translate the statistics / grid functions: {e}")
+    ch = cxx2gallina.write_if_changed(os.path.join(vbuild.VERIF, "coq", "Gen_C19_Formulas.v"), txt)
+    return "Gen_C19_Formulas.v regenerated from the current source" if ch else ""
 RULE = ("cases are generated per helper (workload, range, linspace, logspace, closest, list templates, statistics); "
         "non-trivial = workload with remainder != 0 (or zero workers: exit), or closest with a tie / out-of-range target / duplicates, or a clamped "
         "Sub_List index, or a ragged/rectangular transpose with >1 row and >1 column, or range with a step that does not divide "
@@ -23,6 +39,7 @@ RULE = ("cases are generated per helper (workload, range, linspace, logspace, cl
         "(PDF_Gauss/CDF_Gauss from the centre to z = 1e160, PMF_Poisson, (Log_)Likelihood_Poisson at zero and huge expectations, PDF_Maxwell_Boltzmann, PDF_Chi_Square), "
         "libm domain/range errors, division by zero and overflow in the caller's arithmetic, strtod range errors; every answer of a session is checked by the clauses of its own request "
         "and compared bit for bit with the answer of the same request alone in a pristine process (the harness restores errno, the exception flags and the stream states at the start of every case line). "
+        "DataPoint (op dpcmp): the three constructors and operator< / > / == on values from the whole double range (signed zeros, NaN, infinities, neighbours 1..1000 ulp apart, equal values with different weights). "
         "A session is non-trivial when one of its requests is. The rounding mode and the locale are not varied (they change what the arithmetic means, not what an earlier call left behind)")
 LEVEL_TEXT = ("Theorems (Coq, unbounded, all listed in evidence.coverage.theorems): Workload_Distribution meets its full specification for every workers >= 1 and every tasks (zero workers exit); "
               "Range enumerates exactly [min, min+-step, ...) with ceil(|max-min|/step) elements for step > 0 (a non-positive step makes the ascending loop diverge: model outcome None, outside the quantifier); "
@@ -49,12 +66,18 @@ LEVEL_TEXT = ("Theorems (Coq, unbounded, all listed in evidence.coverage.theorem
               "The helpers against each other, over R, any size: Arithmetic_Mean and Median of a Linear_Space grid are (min+max)/2 in either orientation ; Arithmetic_Mean of Combine_Lists is the size-weighted mean of the means; "
               "Variance in Koenig-Huygens form and Variance = 0 exactly for constant data (all four in C19_stats_of_grids_and_combined_lists); Locate_Closest_Location finds a member of the list exactly, finds the k-th element of a strictly increasing list at k, in particular a point of an ascending Linear_Space/Log_Space grid at its index, and rejects a descending grid (C19_closest_location_lookup); "
               "the grid compositions are also run on the implementation (op gridstat: mean/median of the grid against the mid-point with a-priori rounding slack, the looked-up index holds the grid point). "
+              "Seventh pass: Workload_Distribution computes in int, the model in Z - every value the index list holds in every state of the remainder loop, the quotient, the remainder and every increment lie in [0, tasks] / [0, workers), so for tasks <= INT_MAX no int operation overflows and the two arithmetics coincide (C19_workload_machine_integers); "
+              "DataPoint (the element type of Weighted_Average): the three ways of constructing one store value and weight (defaults 0 and 1), operator< / operator> / operator== look at the values only in every number type (C19_datapoint_any_number_type), and from the laws of a strict total order operator< is irreflexive and transitive, operator== is exactly incomparability and exactly one of <, ==, > holds (C19_datapoint_order_ord); both are driven on the implementation (op dpcmp). "
+              "T-tie: the Gallina terms for Arithmetic_Mean, Variance, Standard_Deviation, Weighted_Average, Linear_Space, Log_Space and the three DataPoint operators are regenerated from clang's AST of the current source on every run (coq/Gen_C19_Formulas.v) and proved equal to the hand model for every number type in which the literals 0.0, 1.0, 2.0 are the integers 0, 1, 2 (LitLaws; proved for R, true for doubles by exact representability - not a Coq theorem) (C19_generated_*_is_model; Weighted_Average by fold fusion, induction over the data); a change of a formula, loop bound, comparison, literal or operand order in these functions breaks a proof before any case is run. "
               "Not theorems: all of the above over R says nothing about rounding - the rounding behaviour of the floating-point grids and statistics, in particular that the three cancelling sums of Cochran's formula stay close to the closed form in doubles (covered by correspondence, bit-identical, and by S4 with a-priori rounding slack); which permutation std::nth_element leaves in the caller's vector (the model takes the sorted one; order-sensitive calls after a Median are compared on data whose partial sums are exact); that std::nth_element/upper_bound/is_sorted meet their specifications; that the C++ helpers read no ambient process state (errno, exception flags, stream state) and keep no statics is a fact about the code, tied by correspondence on sessions and by the fresh-process comparison, not a theorem. "
               "The Gallina model is the term that is extracted and run against the C++ helpers on every run, and every clause of the property is also evaluated on the implementation's output.")
 LEVEL_NOTE = ("Coq 8.16.1 kernel; theorems over Z/nat/lists are axiom-free, theorems over R use the standard library's real-number axioms (listed in the evidence); "
-              "hand-written model tied by differential correspondence (extraction with ExtrOcamlBasic only); std::nth_element/upper_bound/is_sorted modelled by their specifications")
+              "hand-written model tied by differential correspondence (extraction with ExtrOcamlBasic only), and for the statistics / grid functions and the DataPoint operators additionally by regeneration from clang's AST (tools/cxx2gallina_C19.py on top of tools/cxx2gallina.py; the translator and clang's AST dump are trusted, the equality with the hand model is a theorem under LitLaws); "
+              "std::nth_element/upper_bound/is_sorted modelled by their specifications; which code is in the model: coverage/C19.md")
 TOL = (1e-12, 0.0)
-TRUSTED = ["std::nth_element / std::upper_bound / std::is_sorted are modelled by their specifications (k-th smallest, first element greater than the target, adjacent order)"]
+TRUSTED = ["std::nth_element / std::upper_bound / std::is_sorted are modelled by their specifications (k-th smallest, first element greater than the target, adjacent order)",
+           "std::accumulate is a left fold from its initial value; clang's JSON AST dump and tools/cxx2gallina(_C19).py for the regenerated terms (T-tie)",
+           "LitLaws for the double instance (the literals 0.0, 1.0, 2.0 are exactly the doubles 0, 1, 2) is not a Coq theorem; it is proved for R"]
 
 
 # ---- doubles as an ordered integer line: k-ulp steps anywhere in the finite range (subnormals, powers of two, +-DBL_MAX)
@@ -644,6 +667,21 @@ def gridstat_cases(rng, count):
     return cs
 
 
+def datapoint_cases(rng, count):
+    cs = []
+    for _ in range(count):
+        mode = rng.choice([0, 0, 0, 1, 2])
+        v1 = rng.choice(DPOOL) if rng.random() < 0.5 else rng.choice([-1, 1]) * 10 ** rng.uniform(-320, 308)
+        r = rng.random()
+        if r < 0.3: v2 = v1
+        elif r < 0.5 and finite(v1): v2 = ulp_step(v1, rng.choice([-1, 1]) * rng.choice(ULPS))
+        elif r < 0.6: v2 = -v1
+        else: v2 = rng.choice(DPOOL) if rng.random() < 0.5 else rng.choice([-1, 1]) * 10 ** rng.uniform(-320, 308)
+        w1 = rng.choice([1.0, 0.0, 2.5, rng.uniform(0.1, 10), math.nan, -1.0]); w2 = w1 if rng.random() < 0.3 else rng.choice([1.0, 0.5, rng.uniform(0.1, 10), math.inf])
+        cs.append(Case(f"dpcmp {mode} {hx(v1)} {hx(w1)} {hx(v2)} {hx(w2)}", ("dpcmp", f"dpcmp-mode{mode}", "dpcmp-equal-values" if v1 == v2 else "dpcmp-distinct")))
+    return cs
+
+
 def generate(rng, tier):
     cs = []
     big = tier != "quick"
@@ -781,6 +819,9 @@ def generate(rng, tier):
     # the helpers composed (after everything else, so that the streams above are unchanged): statistics of an ascending grid, a grid point
     # looked up in its own grid; end points of moderate magnitude (the overflow regions of K-C19-1/2 are not entered), steps down to a few ulps
     cs += gridstat_cases(rng, 3000 if big else 250)
+    # DataPoint: the three constructors and operator< / operator> / operator== (values from the whole double range incl. signed zeros, NaN, infinities,
+    # neighbours 1 ulp apart; equal values with different weights)
+    cs += datapoint_cases(rng, 3000 if big else 300)
     return cs
 
 
@@ -1064,6 +1105,14 @@ def predicates(c, io):
         if not (isinstance(v[2], int) and 0 <= v[2] < max(n, 1)): out.append(("gridstat:lookup-range", f"index {v[2]} for grid point {k} of {n}"))
         elif not v[3] == v[4]:
             out.append(("gridstat:lookup-member", f"grid point {k} = {v[3]!r} of Linear_Space({a!r},{b!r},{n}) looked up in the grid: index {v[2]} holding {v[4]!r}"))
+    elif op == "dpcmp":
+        mode = int(t[1]); v1, w1, v2, w2 = [float(x) for x in parse_vals(c.line)[2:6]]
+        if io.startswith("EXIT") or len(v) != 7: return [("dpcmp:shape", f"expected two data points and three comparisons, got {io[:60]}")]
+        ea = (v1, w1) if mode == 0 else ((v1, 1.0) if mode == 1 else (0.0, 1.0)); eb = (v2, 1.0) if mode == 1 else (v2, w2)
+        if [_key(x) for x in v[:4]] != [_key(x) for x in ea + eb]:
+            out.append(("dpcmp:constructor", f"DataPoint constructors (mode {mode}) stored {v[:4]}, expected {list(ea + eb)}"))
+        exp = [1 if ea[0] < eb[0] else 0, 1 if ea[0] > eb[0] else 0, 1 if ea[0] == eb[0] else 0]
+        if v[4:7] != exp: out.append(("dpcmp:comparison", f"operator<, operator>, operator== on values {ea[0]!r}, {eb[0]!r} (weights {ea[1]!r}, {eb[1]!r}) gave {v[4:7]}, the values compare as {exp}"))
     elif op in ("range1", "range2"):
         a, b = (0, int(t[1])) if op == "range1" else (int(t[1]), int(t[2]))
         exp = list(range(a, b, 1 if a < b else -1))
